@@ -1,19 +1,905 @@
-// Package c04: STUB — property C04 is not built yet.
+// Package c04 ties the tunnel model (lean/Martian/Model/Tunnel.lean) to martian's blind CONNECT
+// tunnel (proxy.go handleConnectRequest / connect) and states property C04 directly over what a raw
+// client and a raw target observe on loopback connections.
+//
+// Ops of one case (one tunnel):
+//
+//	open <route> <lst> <tgt> <early> <banner> <seedC> <seedT>
+//	    route: direct | via (second martian as downstream proxy) | viafake (raw downstream proxy that
+//	           answers "200 Connection established" and <banner> tunnel bytes in ONE write)
+//	    lst:   tcp | plain | tls   - what kind of net.Conn the proxy under test accepts
+//	    tgt:   tcp | plain         - what kind of net.Conn its dial returns
+//	    early: bytes the client sends in the same write as the CONNECT head
+//	    banner: bytes the target writes as soon as it has accepted
+//	unreach <route> <lst>            CONNECT to a port nobody listens on
+//	send <nC> <nT> <chunkseed>       client writes nC and target writes nT further bytes, concurrently
+//	close <c|t> <half|full>          that end finishes sending (CloseWrite) or closes
+//	end                              does the proxy release the tunnel (Proxy.Close returns)?
+//
+// Observation after every op, at quiescence: status, the total (length:fnv64a) received by the
+// target and by the client after the response head, who has seen end-of-stream, released or not.
 package c04
 
-import "verif/harness/internal/core"
+import (
+	"bufio"
+	"crypto/tls"
+	"fmt"
+	"net"
+	"net/url"
+	"strconv"
+	"strings"
+	"sync"
+	"time"
+
+	martian "github.com/google/martian/v3"
+	mlog "github.com/google/martian/v3/log"
+	"github.com/google/martian/v3/mitm"
+
+	"verif/harness/internal/core"
+)
 
 type P struct{}
 
 func init() { core.Register(P{}) }
 
-func (P) ID() string   { return "C04" }
-func (P) Rule() string { return "stub" }
-func (P) Gen(r *core.Rand, tier string, emit func([]string)) {}
-func (P) NewExec() core.Exec                                   { return ex{} }
-func (P) Nontrivial(ops []string, impl []string) bool         { return false }
+func (P) ID() string { return "C04" }
+func (P) Rule() string {
+	return "one real tunnel per case over loopback (raw client, raw target, proxy under test; optionally a second martian or a raw fake proxy downstream); " +
+		"after every op the harness waits for quiescence (bound 2 s, proxy idle timeout 30 s) and compares what each end has received (length:fnv64a), " +
+		"EOF flags and release with the Lean model's line; oracle: received == sent in both directions, early data and banner included, EOF reaches the other end, " +
+		"unreachable target gives 502 + Warning, Proxy.Close returns once both ends have closed; a timing-dependent failure counts only if it reproduces in 3 of 3 runs"
+}
 
-type ex struct{}
+const (
+	bound       = 2 * time.Second
+	idleTimeout = 30 * time.Second
+)
 
-func (ex) Do(op string) core.Result { return core.Result{Impl: "bad-op"} }
-func (ex) Close()                   {}
+// pat is the byte at offset i of the stream with the given seed (same function in Drv/C04.lean).
+func pat(seed, i int) byte { return byte((i*167 + (i/256)*13 + seed) % 256) }
+
+const fnvOff, fnvPrime = uint64(14695981039346656037), uint64(1099511628211)
+
+type digest struct {
+	n int
+	h uint64
+}
+
+func newDigest() digest { return digest{0, fnvOff} }
+func (d *digest) add(b []byte) {
+	h := d.h
+	for _, x := range b {
+		h ^= uint64(x)
+		h *= fnvPrime
+	}
+	d.h = h
+	d.n += len(b)
+}
+func (d digest) String() string { return fmt.Sprintf("%d:%016x", d.n, d.h) }
+
+// end is one end of the tunnel as the harness sees it: a connection, a reader goroutine that
+// digests everything received, and the digest of everything sent.
+type end struct {
+	mu     sync.Mutex
+	conn   net.Conn
+	rd     *bufio.Reader
+	recv   digest
+	eof    bool
+	rerr   error
+	sent   digest
+	seed   int
+	closed string // "", "half", "full"
+}
+
+func (e *end) start() {
+	go func() {
+		buf := make([]byte, 64<<10)
+		for {
+			n, err := e.rd.Read(buf)
+			e.mu.Lock()
+			if n > 0 {
+				e.recv.add(buf[:n])
+			}
+			if err != nil {
+				e.eof = true
+				e.rerr = err
+				e.mu.Unlock()
+				return
+			}
+			e.mu.Unlock()
+		}
+	}()
+}
+
+func (e *end) snap() (digest, bool) {
+	e.mu.Lock()
+	defer e.mu.Unlock()
+	return e.recv, e.eof
+}
+
+// write sends n further pattern bytes in the chunks chosen by r.
+func (e *end) write(n int, r *core.Rand) error {
+	off := e.sent.n
+	for n > 0 {
+		var c int
+		switch r.Intn(6) {
+		case 0:
+			c = r.Range(1, 16)
+		case 1:
+			c = r.Range(4090, 4100)
+		case 2:
+			c = r.Range(32760, 32776)
+		case 3:
+			c = r.Range(1, 1500)
+		default:
+			c = r.Range(1, 1<<18)
+		}
+		if c > n {
+			c = n
+		}
+		b := make([]byte, c)
+		for i := range b {
+			b[i] = pat(e.seed, off+i)
+		}
+		e.conn.SetWriteDeadline(time.Now().Add(10 * time.Second))
+		if _, err := e.conn.Write(b); err != nil {
+			return err
+		}
+		e.sent.add(b)
+		off += c
+		n -= c
+		if r.Chance(1, 4) {
+			time.Sleep(time.Duration(r.Range(50, 1500)) * time.Microsecond)
+		}
+	}
+	return nil
+}
+
+func waitUntil(d time.Duration, cond func() bool) bool {
+	deadline := time.Now().Add(d)
+	for {
+		if cond() {
+			return true
+		}
+		if time.Now().After(deadline) {
+			return false
+		}
+		time.Sleep(300 * time.Microsecond)
+	}
+}
+
+// plainConn hides ReadFrom/WriteTo of the wrapped connection (like *tls.Conn, it still has CloseWrite).
+type plainConn struct{ net.Conn }
+
+func (c plainConn) CloseWrite() error {
+	if cw, ok := c.Conn.(interface{ CloseWrite() error }); ok {
+		return cw.CloseWrite()
+	}
+	return nil
+}
+
+type plainListener struct{ net.Listener }
+
+func (l plainListener) Accept() (net.Conn, error) {
+	c, err := l.Listener.Accept()
+	if err != nil {
+		return nil, err
+	}
+	return plainConn{c}, nil
+}
+
+var (
+	tlsOnce sync.Once
+	tlsCfg  *tls.Config
+)
+
+func serverTLS() *tls.Config {
+	tlsOnce.Do(func() {
+		ca, priv, err := mitm.NewAuthority("verif", "verif", time.Hour)
+		if err != nil {
+			panic(err)
+		}
+		mc, err := mitm.NewConfig(ca, priv)
+		if err != nil {
+			panic(err)
+		}
+		tlsCfg = mc.TLSForHost("127.0.0.1")
+	})
+	return tlsCfg
+}
+
+type ex struct {
+	ops     []string // executed so far (for confirmation re-runs)
+	confirm bool     // this exec is itself a confirmation run
+
+	proxies   []*martian.Proxy
+	listeners []net.Listener
+	conns     []net.Conn
+	c, t      *end
+	status    int
+	warning   bool
+	opened    bool
+	released  string
+}
+
+// After maxFailures confirmed oracle failures the remaining generated cases of the main pass are
+// not executed (each failing case costs the 2 s bound several times over); the cases run by the
+// shrinker afterwards and replays are always executed.
+const maxFailures = 6
+
+var (
+	mainCases     = -1 // corpus + generated cases; -1 in replay mode (Gen not called)
+	execsStarted  int
+	totalFailures int
+)
+
+func (P) NewExec() core.Exec {
+	mlog.SetLevel(mlog.Silent)
+	execsStarted++
+	if mainCases >= 0 && execsStarted <= mainCases && totalFailures >= maxFailures {
+		core.Count("skipped-after-failures")
+		return skipEx{}
+	}
+	return &ex{}
+}
+
+type skipEx struct{}
+
+func (skipEx) Do(string) core.Result { return core.Result{Impl: "skipped", SkipModel: true} }
+func (skipEx) Close()                {}
+
+func (e *ex) Close() {
+	for _, c := range e.conns {
+		c.Close()
+	}
+	for _, l := range e.listeners {
+		l.Close()
+	}
+	for _, p := range e.proxies {
+		p := p
+		if e.released == "" { // Close was not tried yet; never wait for it
+			go func() {
+				defer func() { recover() }()
+				p.Close()
+			}()
+		}
+	}
+}
+
+func fail(sig, format string, a ...interface{}) core.Result {
+	return core.Result{Fail: fmt.Sprintf(format, a...), Sig: sig}
+}
+
+func (e *ex) listen() (net.Listener, bool) {
+	l, err := net.Listen("tcp", "127.0.0.1:0")
+	if err != nil {
+		return nil, false
+	}
+	e.listeners = append(e.listeners, l)
+	return l, true
+}
+
+func (e *ex) newProxy(lst, tgt string, down string) (string, bool) {
+	l, ok := e.listen()
+	if !ok {
+		return "", false
+	}
+	p := martian.NewProxy()
+	p.SetTimeout(idleTimeout)
+	if down != "" {
+		p.SetDownstreamProxy(&url.URL{Host: down})
+	}
+	if tgt == "plain" {
+		p.SetDial(func(n, a string) (net.Conn, error) {
+			c, err := net.DialTimeout(n, a, 5*time.Second)
+			if err != nil {
+				return nil, err
+			}
+			return plainConn{c}, nil
+		})
+	}
+	var sl net.Listener = l
+	switch lst {
+	case "plain":
+		sl = plainListener{l}
+	case "tls":
+		sl = tls.NewListener(l, serverTLS())
+	}
+	e.proxies = append(e.proxies, p)
+	go p.Serve(sl)
+	return l.Addr().String(), true
+}
+
+// fakeProxy is a raw downstream proxy: it answers CONNECT with a 200 that has no Content-Length
+// and, in the same write, the first `banner` bytes the target has sent.
+func (e *ex) fakeProxy(banner int) (string, bool) {
+	l, ok := e.listen()
+	if !ok {
+		return "", false
+	}
+	go func() {
+		c, err := l.Accept()
+		if err != nil {
+			return
+		}
+		defer c.Close()
+		br := bufio.NewReader(c)
+		c.SetReadDeadline(time.Now().Add(10 * time.Second))
+		var host string
+		for {
+			line, err := br.ReadString('\n')
+			if err != nil {
+				return
+			}
+			if f := strings.Fields(line); len(f) >= 2 && f[0] == "CONNECT" {
+				host = f[1]
+			}
+			if line == "\r\n" {
+				break
+			}
+		}
+		c.SetReadDeadline(time.Time{})
+		t, err := net.DialTimeout("tcp", host, 5*time.Second)
+		if err != nil {
+			c.Write([]byte("HTTP/1.1 502 Bad Gateway\r\nWarning: 199 \"fake\" \"unreachable\"\r\nContent-Length: 0\r\n\r\n"))
+			return
+		}
+		defer t.Close()
+		ahead := make([]byte, banner)
+		t.SetReadDeadline(time.Now().Add(5 * time.Second))
+		for got := 0; got < banner; {
+			n, err := t.Read(ahead[got:])
+			got += n
+			if err != nil {
+				return
+			}
+		}
+		t.SetReadDeadline(time.Time{})
+		c.Write(append([]byte("HTTP/1.1 200 Connection established\r\n\r\n"), ahead...))
+		done := make(chan bool, 2)
+		pump := func(dst, src net.Conn, r *bufio.Reader) {
+			buf := make([]byte, 32<<10)
+			for {
+				var n int
+				var err error
+				if r != nil {
+					n, err = r.Read(buf)
+				} else {
+					n, err = src.Read(buf)
+				}
+				if n > 0 {
+					if _, werr := dst.Write(buf[:n]); werr != nil {
+						break
+					}
+				}
+				if err != nil {
+					break
+				}
+			}
+			if cw, ok := dst.(*net.TCPConn); ok {
+				cw.CloseWrite()
+			}
+			done <- true
+		}
+		go pump(t, c, br)
+		go pump(c, t, nil)
+		for i := 0; i < 2; i++ {
+			select {
+			case <-done:
+			case <-time.After(25 * time.Second):
+				return
+			}
+		}
+	}()
+	return l.Addr().String(), true
+}
+
+func (e *ex) obs() string {
+	td, teof := digest{}, false
+	cd, ceof := digest{}, false
+	if e.t != nil {
+		td, teof = e.t.snap()
+	} else {
+		td = newDigest()
+	}
+	if e.c != nil {
+		cd, ceof = e.c.snap()
+	} else {
+		cd = newDigest()
+	}
+	b := func(x bool) string {
+		if x {
+			return "1"
+		}
+		return "0"
+	}
+	return fmt.Sprintf("t=%s c=%s teof=%s ceof=%s", td, cd, b(teof), b(ceof))
+}
+
+// dialClient connects to the proxy under test the way its listener expects.
+func dialClient(addr, lst string) (net.Conn, error) {
+	c, err := net.DialTimeout("tcp", addr, 5*time.Second)
+	if err != nil {
+		return nil, err
+	}
+	if lst == "tls" {
+		tc := tls.Client(c, &tls.Config{InsecureSkipVerify: true})
+		c.SetDeadline(time.Now().Add(5 * time.Second))
+		if err := tc.Handshake(); err != nil {
+			c.Close()
+			return nil, err
+		}
+		c.SetDeadline(time.Time{})
+		return tc, nil
+	}
+	return c, nil
+}
+
+// readHead reads the response head; the reader keeps whatever followed it.
+func readHead(c net.Conn, br *bufio.Reader) (status int, warning bool, err error) {
+	c.SetReadDeadline(time.Now().Add(bound))
+	defer c.SetReadDeadline(time.Time{})
+	first := true
+	for {
+		line, err := br.ReadString('\n')
+		if err != nil {
+			return status, warning, err
+		}
+		if first {
+			f := strings.Fields(line)
+			if len(f) >= 2 {
+				status, _ = strconv.Atoi(f[1])
+			}
+			first = false
+		}
+		if strings.HasPrefix(strings.ToLower(line), "warning:") {
+			warning = true
+		}
+		if line == "\r\n" || line == "\n" {
+			return status, warning, nil
+		}
+	}
+}
+
+func (e *ex) checkDelivery(what string) core.Result {
+	td, _ := e.t.snap()
+	cd, _ := e.c.snap()
+	if td != e.c.sent {
+		sig := "c04:c2t-not-delivered"
+		if td.n >= e.c.sent.n || td.n > 0 && td.h != prefixHash(e.c.seed, td.n) {
+			sig = "c04:c2t-corrupt"
+		}
+		return fail(sig, "%s: client has sent %s but the target has received %s %v after the tunnel went quiet", what, e.c.sent, td, bound)
+	}
+	if cd != e.t.sent {
+		sig := "c04:t2c-not-delivered"
+		if cd.n >= e.t.sent.n || cd.n > 0 && cd.h != prefixHash(e.t.seed, cd.n) {
+			sig = "c04:t2c-corrupt"
+		}
+		return fail(sig, "%s: target has sent %s but the client has received %s %v after the tunnel went quiet", what, e.t.sent, cd, bound)
+	}
+	return core.Result{}
+}
+
+func prefixHash(seed, n int) uint64 {
+	d := newDigest()
+	b := make([]byte, n)
+	for i := range b {
+		b[i] = pat(seed, i)
+	}
+	d.add(b)
+	return d.h
+}
+
+func (e *ex) waitDelivered() {
+	waitUntil(bound, func() bool {
+		td, _ := e.t.snap()
+		cd, _ := e.c.snap()
+		return td.n >= e.c.sent.n && cd.n >= e.t.sent.n
+	})
+}
+
+func atoi(s string) int { n, _ := strconv.Atoi(s); return n }
+
+func (e *ex) do(op string) core.Result {
+	f := strings.Fields(op)
+	if len(f) == 0 {
+		return core.Result{Impl: "bad-op"}
+	}
+	switch f[0] {
+	case "open", "unreach":
+		if e.opened || e.status != 0 {
+			return core.Result{Impl: "bad-op"}
+		}
+		var route, lst, tgt string
+		var early, banner, seedC, seedT int
+		unreach := f[0] == "unreach"
+		if unreach {
+			if len(f) != 3 {
+				return core.Result{Impl: "bad-op"}
+			}
+			route, lst, tgt = f[1], f[2], "tcp"
+		} else {
+			if len(f) != 8 {
+				return core.Result{Impl: "bad-op"}
+			}
+			route, lst, tgt = f[1], f[2], f[3]
+			early, banner, seedC, seedT = atoi(f[4]), atoi(f[5]), atoi(f[6]), atoi(f[7])
+		}
+		core.Count("route:" + route)
+		core.Count("lst:" + lst)
+		// target
+		tl, ok := e.listen()
+		if !ok {
+			return core.Result{Impl: "setup-failed", Fail: "listen failed", Sig: "c04:setup"}
+		}
+		taddr := tl.Addr().String()
+		accepted := make(chan net.Conn, 1)
+		if unreach {
+			tl.Close()
+		} else {
+			go func() {
+				c, err := tl.Accept()
+				if err != nil {
+					return
+				}
+				accepted <- c
+			}()
+		}
+		e.t = &end{seed: seedT, recv: newDigest(), sent: newDigest()}
+		e.c = &end{seed: seedC, recv: newDigest(), sent: newDigest()}
+		down := ""
+		switch route {
+		case "via":
+			down, ok = e.newProxy("tcp", "tcp", "")
+		case "viafake":
+			down, ok = e.fakeProxy(banner)
+		case "direct":
+		default:
+			return core.Result{Impl: "bad-op"}
+		}
+		if !ok {
+			return core.Result{Impl: "setup-failed", Fail: "listen failed", Sig: "c04:setup"}
+		}
+		paddr, ok := e.newProxy(lst, tgt, down)
+		if !ok {
+			return core.Result{Impl: "setup-failed", Fail: "listen failed", Sig: "c04:setup"}
+		}
+		cc, err := dialClient(paddr, lst)
+		if err != nil {
+			return core.Result{Impl: "setup-failed", Fail: "client dial: " + err.Error(), Sig: "c04:setup"}
+		}
+		e.conns = append(e.conns, cc)
+		e.c.conn, e.c.rd = cc, bufio.NewReaderSize(cc, 64<<10)
+		// CONNECT head and early data in ONE write
+		msg := []byte("CONNECT " + taddr + " HTTP/1.1\r\nHost: " + taddr + "\r\n\r\n")
+		eb := make([]byte, early)
+		for i := range eb {
+			eb[i] = pat(seedC, i)
+		}
+		cc.SetWriteDeadline(time.Now().Add(5 * time.Second))
+		if _, err := cc.Write(append(msg, eb...)); err != nil {
+			return core.Result{Impl: "setup-failed", Fail: "client write: " + err.Error(), Sig: "c04:setup"}
+		}
+		e.c.sent.add(eb)
+		if !unreach {
+			// the target speaks first: banner
+			select {
+			case tc := <-accepted:
+				e.conns = append(e.conns, tc)
+				e.t.conn, e.t.rd = tc, bufio.NewReaderSize(tc, 64<<10)
+				bb := make([]byte, banner)
+				for i := range bb {
+					bb[i] = pat(seedT, i)
+				}
+				if banner > 0 {
+					tc.SetWriteDeadline(time.Now().Add(5 * time.Second))
+					tc.Write(bb)
+				}
+				e.t.sent.add(bb)
+				e.t.start()
+			case <-time.After(bound):
+				e.status, _, _ = readHead(cc, e.c.rd)
+				return core.Result{Impl: fmt.Sprintf("open %d no-accept", e.status),
+					Fail: fmt.Sprintf("the target saw no connection within %v of the CONNECT (status read by the client: %d)", bound, e.status), Sig: "c04:no-tunnel"}
+			}
+		}
+		st, warn, err := readHead(cc, e.c.rd)
+		e.status, e.warning = st, warn
+		if unreach {
+			core.Count("outcome:unreachable")
+			w := "nowarning"
+			if warn {
+				w = "warning"
+			}
+			impl := fmt.Sprintf("status %d %s", st, w)
+			if err != nil {
+				return core.Result{Impl: "status none", Fail: fmt.Sprintf("CONNECT to a closed port: no response head within %v (%v)", bound, err), Sig: "c04:no-502"}
+			}
+			if st != 502 || !warn {
+				return core.Result{Impl: impl, Fail: "CONNECT to a closed port: got " + impl + ", want 502 with a Warning header", Sig: "c04:no-502"}
+			}
+			return core.Result{Impl: impl}
+		}
+		if err != nil || st != 200 {
+			return core.Result{Impl: fmt.Sprintf("status %d", st),
+				Fail: fmt.Sprintf("CONNECT to a listening target: no 200 head within %v (status %d, err %v)", bound, st, err), Sig: "c04:no-200"}
+		}
+		e.opened = true
+		e.c.start()
+		e.waitDelivered()
+		impl := "status 200 " + e.obs()
+		if td, _ := e.t.snap(); td != e.c.sent {
+			return core.Result{Impl: impl, Sig: "c04:early-data-not-delivered",
+				Fail: fmt.Sprintf("%d bytes sent in the same write as the CONNECT head: the target has received %s (want %s) %v later", early, td, e.c.sent, bound)}
+		}
+		if r := e.checkDelivery("banner"); r.Fail != "" {
+			r.Impl = impl
+			return r
+		}
+		core.Count("outcome:tunnel")
+		return core.Result{Impl: impl}
+
+	case "send":
+		if !e.opened || len(f) != 4 {
+			return core.Result{Impl: "bad-op"}
+		}
+		nC, nT := atoi(f[1]), atoi(f[2])
+		if e.c.closed != "" || e.t.closed == "full" {
+			nC = 0
+		}
+		if e.t.closed != "" || e.c.closed == "full" {
+			nT = 0
+		}
+		r := core.NewRand(uint64(atoi(f[3])))
+		rc, rt := r.Fork(), r.Fork()
+		errs := make(chan error, 2)
+		go func() { errs <- e.c.write(nC, rc) }()
+		go func() { errs <- e.t.write(nT, rt) }()
+		for i := 0; i < 2; i++ {
+			select {
+			case err := <-errs:
+				if err != nil {
+					return core.Result{Impl: "write-failed " + e.obs(), Fail: "a write into the open tunnel failed: " + err.Error(), Sig: "c04:write-failed"}
+				}
+			case <-time.After(20 * time.Second):
+				return core.Result{Impl: "write-blocked " + e.obs(), Fail: "a write into the open tunnel blocked for 20 s (the proxy stopped reading)", Sig: "c04:write-blocked"}
+			}
+		}
+		if nC > 0 && nT > 0 {
+			core.Count("send:both")
+		} else if nC+nT > 0 {
+			core.Count("send:one")
+		}
+		if nC+nT >= 1<<20 {
+			core.Count("send:>=1MiB")
+		}
+		e.waitDelivered()
+		res := e.checkDelivery("send")
+		res.Impl = e.obs()
+		return res
+
+	case "close":
+		if !e.opened || len(f) != 3 {
+			return core.Result{Impl: "bad-op"}
+		}
+		who, other, name, oname := e.c, e.t, "client", "target"
+		if f[1] == "t" {
+			who, other, name, oname = e.t, e.c, "target", "client"
+		}
+		if who.closed == "full" || who.closed == f[2] {
+			return core.Result{Impl: e.obs()}
+		}
+		core.Count("close:" + f[1] + ":" + f[2])
+		if f[2] == "half" {
+			if cw, ok := who.conn.(interface{ CloseWrite() error }); ok {
+				cw.CloseWrite()
+			}
+		} else {
+			who.conn.Close()
+			waitUntil(bound, func() bool { _, eof := who.snap(); return eof })
+		}
+		first := who.closed == ""
+		who.closed = f[2]
+		if !first {
+			return core.Result{Impl: e.obs()}
+		}
+		okEOF := waitUntil(bound, func() bool { _, eof := other.snap(); return eof })
+		impl := e.obs()
+		if r := e.checkDelivery("close"); r.Fail != "" && other.closed != "full" {
+			r.Impl = impl
+			return r
+		}
+		if !okEOF && other.closed != "full" {
+			return core.Result{Impl: impl, Sig: "c04:eof-not-propagated-to-" + oname,
+				Fail: fmt.Sprintf("the %s finished sending (%s close) but the %s has not seen end-of-stream %v later (idle timeout %v)", name, f[2], oname, bound, idleTimeout)}
+		}
+		return core.Result{Impl: impl}
+
+	case "end":
+		if !e.opened {
+			return core.Result{Impl: "end n/a"}
+		}
+		if e.c.closed == "" || e.t.closed == "" {
+			return core.Result{Impl: "end open"}
+		}
+		done := make(chan bool, len(e.proxies))
+		for _, p := range e.proxies {
+			p := p
+			go func() {
+				defer func() { recover() }()
+				p.Close()
+				done <- true
+			}()
+		}
+		e.released = "released"
+		deadline := time.After(bound)
+		for range e.proxies {
+			select {
+			case <-done:
+			case <-deadline:
+				e.released = "blocked"
+			}
+		}
+		core.Count("end:" + e.released)
+		if e.released != "released" {
+			return core.Result{Impl: "end blocked", Sig: "c04:not-released",
+				Fail: fmt.Sprintf("both ends have closed, but Proxy.Close() did not return within %v: a tunnel handler still holds its connections", bound)}
+		}
+		return core.Result{Impl: "end released"}
+	}
+	return core.Result{Impl: "bad-op"}
+}
+
+// Do runs the op; an oracle failure that depends on a wall-clock bound counts only if the whole
+// case prefix reproduces it in two further runs on fresh fixtures.
+func (e *ex) Do(op string) core.Result {
+	e.ops = append(e.ops, op)
+	r := e.do(op)
+	if r.Fail == "" || e.confirm || r.Sig == "c04:setup" {
+		if r.Sig == "c04:setup" && !e.confirm {
+			core.Count("setup-failed")
+			r.Fail, r.Sig, r.SkipModel = "", "", true
+		}
+		return r
+	}
+	if confirmed[r.Sig] >= 2 { // this class has already reproduced 3 of 3 twice in this run: not a flake
+		totalFailures++
+		return r
+	}
+	for i := 0; i < 2; i++ {
+		x := &ex{confirm: true}
+		var last core.Result
+		for _, o := range e.ops {
+			last = x.do(o)
+			if last.Fail != "" {
+				break
+			}
+		}
+		x.Close()
+		if last.Fail == "" || last.Sig != r.Sig {
+			core.Count("unconfirmed-timing-failure")
+			last.Fail, last.Sig = "", ""
+			return last
+		}
+	}
+	confirmed[r.Sig]++
+	totalFailures++
+	return r
+}
+
+var confirmed = map[string]int{}
+
+func (P) Nontrivial(ops []string, impl []string) bool {
+	for _, l := range impl {
+		if strings.HasPrefix(l, "status ") {
+			return true
+		}
+	}
+	return false
+}
+
+var earlySizes = []int{0, 1, 517, 4096, 5000}
+
+func genSize(r *core.Rand, tier string) int {
+	switch r.Intn(12) {
+	case 0:
+		return 0
+	case 1, 2:
+		return r.Range(1, 64)
+	case 3:
+		return r.Range(4090, 4100)
+	case 4:
+		return r.Range(8190, 8194)
+	case 5:
+		return r.Range(32760, 32776)
+	case 6, 7:
+		return r.Range(65, 20000)
+	case 8:
+		return r.Range(20000, 300000)
+	case 9:
+		if r.Chance(1, 6) {
+			if tier == "thorough" && r.Chance(1, 3) {
+				return 4 << 20
+			}
+			return 1 << 20
+		}
+		return r.Range(1, 5000)
+	default:
+		return r.Range(1, 5000)
+	}
+}
+
+func genCase(r *core.Rand, tier string, route, lst, tgt string, early, banner int) []string {
+	ops := []string{fmt.Sprintf("open %s %s %s %d %d %d %d", route, lst, tgt, early, banner, r.Intn(256), r.Intn(256))}
+	for i, n := 0, r.Range(1, 4); i < n; i++ {
+		nC, nT := genSize(r, tier), genSize(r, tier)
+		switch r.Intn(5) {
+		case 0:
+			nC = 0
+		case 1:
+			nT = 0
+		}
+		ops = append(ops, fmt.Sprintf("send %d %d %d", nC, nT, r.Intn(1<<30)))
+	}
+	first, second := "c", "t"
+	if r.Bool() {
+		first, second = "t", "c"
+	}
+	how1 := r.Pick("half", "half", "full")
+	ops = append(ops, "close "+first+" "+how1)
+	if how1 == "half" && r.Chance(2, 3) {
+		// the other direction stays usable after a half-close
+		if second == "t" {
+			ops = append(ops, fmt.Sprintf("send 0 %d %d", genSize(r, tier), r.Intn(1<<30)))
+		} else {
+			ops = append(ops, fmt.Sprintf("send %d 0 %d", genSize(r, tier), r.Intn(1<<30)))
+		}
+	}
+	ops = append(ops, "close "+second+" "+r.Pick("half", "full"))
+	if how1 == "half" && r.Bool() {
+		ops = append(ops, "close "+first+" full")
+	}
+	ops = append(ops, "end")
+	return ops
+}
+
+func (P) Gen(r *core.Rand, tier string, emit0 func(ops []string)) {
+	mainCases = core.Stats["corpus_cases"]
+	emit := func(ops []string) { mainCases++; emit0(ops) }
+	routes := []string{"direct", "via", "viafake"}
+	lsts := []string{"tcp", "plain", "tls"}
+	// unreachable target on every route/listener
+	for _, ro := range []string{"direct", "via"} {
+		for _, l := range lsts {
+			emit([]string{"unreach " + ro + " " + l})
+		}
+	}
+	// every early-data size on every route and listener kind, banner alternating
+	for _, ro := range routes {
+		for li, l := range lsts {
+			for ei, early := range earlySizes {
+				if tier != "thorough" && (li+ei)%2 == 1 && ro != "direct" {
+					continue
+				}
+				banner := []int{0, 10, 700, 0, 3000}[(ei+li)%5]
+				emit(genCase(r.Fork(), tier, ro, l, r.Pick("tcp", "plain"), early, banner))
+			}
+		}
+	}
+	n := 220
+	if tier == "thorough" {
+		n = 2500
+	}
+	for i := 0; i < n; i++ {
+		early := earlySizes[r.Intn(len(earlySizes))]
+		if r.Chance(1, 4) {
+			early = r.Range(0, 6000)
+		}
+		banner := 0
+		if r.Chance(1, 2) {
+			banner = r.Pick2(r.Range(1, 100), r.Range(100, 3500))
+		}
+		emit(genCase(r.Fork(), tier, routes[r.Intn(3)], lsts[r.Intn(3)], r.Pick("tcp", "plain"), early, banner))
+	}
+}
